@@ -27,6 +27,11 @@ if not os.path.abspath(pokerkit.__file__).startswith(REPO + os.sep):
 
 SHUFFLE_KEY = ['0']
 SHUFFLE_CALLS = [0]
+# when a list is installed here every shuffle REQUEST (the multiset of items
+# handed to shuffle) is appended to it: the harness brackets constructor and
+# operation calls with it, so the requests made by the engine's operations
+# (not by the harness's own queries) can be compared between two runs
+SHUFFLE_TRACE = [None]
 
 
 def set_shuffle_key(key) -> None:
@@ -42,6 +47,8 @@ def _rank(item) -> bytes:
 def det_shuffle(values) -> None:
     """In-place shuffle whose result depends only on (key, set of items)."""
     SHUFFLE_CALLS[0] += 1
+    if SHUFFLE_TRACE[0] is not None:
+        SHUFFLE_TRACE[0].append(tuple(sorted(map(repr, values))))
     items = sorted(values, key=_rank)
     if isinstance(values, deque):
         values.clear()
